@@ -7,6 +7,8 @@ import Verif.Spec.TableChecks
 import Verif.Spec.TraitChecks
 import Verif.Gen.EntitiesHtml
 import Verif.Gen.TextRevHtml
+import Verif.Gen.AttrRevHtml
+import Verif.Gen.AttrRevXml
 import Verif.Gen.EntitiesXml
 import Verif.Gen.TextRevXml
 import Verif.Gen.TagTraits
@@ -43,6 +45,12 @@ def pairs (t : List (Nat × Nat)) : Bytes :=
 
 def names (t : List Nat) : Bytes := listReply (t.map pkBytes)
 
+/-- byte-keyed table: (byte value, packed escape) -/
+def bytePairs (t : List (Nat × Nat)) : Bytes :=
+  listReply (t.foldr (fun (a, b) acc => [UInt8.ofNat a] :: pkBytes b :: acc) [])
+
+def byteKeys (t : List (Nat × Nat)) : Bytes := listReply (t.map (fun (a, _) => [UInt8.ofNat a]))
+
 /-- last component of the derived `Repr` of an enumeration value -/
 def ctorName {α : Type} [Repr α] (x : α) : String :=
   (((toString (repr x)).splitOn ".").getLast?).getD ""
@@ -59,9 +67,11 @@ def charsUtf8 (l : List Char) : Bytes := (String.ofList l).toUTF8.toList
 
 def dumps : List (String × Handler) := [
   ("dump.EntitiesHtml", fun _ => .ok (pairs EntitiesHtml.table)),
-  ("dump.TextRevHtml", fun _ => .ok (pairs TextRevHtml.table)),
+  ("dump.TextRevHtml", fun _ => .ok (bytePairs TextRevHtml.table)),
+  ("dump.AttrRevHtml", fun _ => .ok (bytePairs AttrRevHtml.table)),
   ("dump.EntitiesXml", fun _ => .ok (pairs EntitiesXml.table)),
-  ("dump.TextRevXml", fun _ => .ok (pairs TextRevXml.table)),
+  ("dump.TextRevXml", fun _ => .ok (bytePairs TextRevXml.table)),
+  ("dump.AttrRevXml", fun _ => .ok (bytePairs AttrRevXml.table)),
   ("dump.ShortenColorHex", fun _ => .ok (pairs ShortenColorHex.table)),
   ("dump.ShortenColorName", fun _ => .ok (pairs ShortenColorName.table)),
   ("dump.JsMimetypes", fun _ => .ok (names JsMimetypes.table)),
@@ -86,11 +96,13 @@ def classes : List (String × List Nat) := [
 
 def bads : List (String × Handler) := [
   ("bad.entitiesHtml", fun _ => .ok (names ((EntitiesHtml.table.filter (!entityRowOk ·)).map (·.1)))),
-  ("bad.textRevHtml", fun _ => .ok (names ((TextRevHtml.table.filter (!textRevRowOk ·)).map (·.1)))),
+  ("bad.textRevHtml", fun _ => .ok (byteKeys (TextRevHtml.table.filter (!htmlRevRowOk .text ·)))),
+  ("bad.attrRevHtml", fun _ => .ok (byteKeys (AttrRevHtml.table.filter (!htmlRevRowOk .attr ·)))),
   ("bad.textRevHtmlCovers", fun _ => .ok (names ((EntitiesHtml.table.filter
       (fun row => row.2 == pk! "<" && (lookupNat 60 TextRevHtml.table).isNone)).map (·.1)))),
   ("bad.entitiesXml", fun _ => .ok (names ((EntitiesXml.table.filter (!xmlEntityRowOk ·)).map (·.1)))),
-  ("bad.textRevXml", fun _ => .ok (names ((TextRevXml.table.filter (!xmlTextRevRowOk ·)).map (·.1)))),
+  ("bad.textRevXml", fun _ => .ok (byteKeys (TextRevXml.table.filter (!xmlRevRowOk ·)))),
+  ("bad.attrRevXml", fun _ => .ok (byteKeys (AttrRevXml.table.filter (!xmlRevRowOk ·)))),
   ("bad.colorHex", fun _ => .ok (names ((ShortenColorHex.table.filter (!colorHexRowOk ·)).map (·.1)))),
   ("bad.colorName", fun _ => .ok (names ((ShortenColorName.table.filter (!colorNameRowOk ·)).map (·.1)))),
   ("bad.boolAttrs", fun _ => .ok (names ((AttrTraits.table.filter (!boolAttrRowOk ·)).map (·.1)))),
